@@ -3,6 +3,7 @@ import fam_loctext
 import fam_region
 import fam_feat
 import fam_alpha
+import fam_textio
 
 
 def lookup(prop):
@@ -16,4 +17,6 @@ def lookup(prop):
         return fam_feat.run
     if prop == "C18":
         return fam_alpha.run
+    if prop in ("C16", "C17"):
+        return fam_textio.run
     return None
